@@ -320,7 +320,19 @@ class Envelope:
         reshape_shape = []
         if self.state is None:
             for s in [self.polarization, self.fock]:
-                out = s.measure()
+                # When measuring separately only the given states are measured
+                if (
+                    separate_measurement
+                    and len(states) > 0
+                    and not any(s is given for given in states)
+                ):
+                    continue
+                # The state could have been measured together with the other one
+                if s.measured or any(s is measured for measured in outcomes):
+                    continue
+                out = s.measure(
+                    separate_measurement=separate_measurement, destructive=destructive
+                )
                 for k, v in out.items():
                     outcomes[k] = v
         else:
